@@ -274,6 +274,44 @@ fn f64_2d(d: &mut Draw) -> Outcome {
     pass(if off > 0.0 { "up-left" } else { "up-right" }, true)
 }
 
+/// 2-D, an up vector of any size down to a few subnormal units: the side of d on which up lies is the sign of
+/// d.x up.y - d.y up.x, which for a d with small integer components (times a power of two) and an up of a few units is
+/// computed here exactly, in integers - the statement puts no lower limit on |up|
+macro_rules! tiny_up_2d {
+    ($fname:ident, $F:ty, $bottom:expr) => {
+        fn $fname(d: &mut Draw) -> Outcome {
+            type F = $F;
+            let (dx, dy) = (d.int(-12, 12), d.int(-12, 12));
+            let (dx, dy) = if dx == 0 && dy == 0 { (3, 4) } else { (dx, dy) };
+            let (ux, uy) = (d.int(-4, 4), d.int(-4, 4));
+            let side = dx * uy - dy * ux;
+            let (ux, uy, side) = if side == 0 { (-dy, dx, dx * dx + dy * dy) } else { (ux, uy, side) };
+            // up: a few units of the smallest subnormal, or of any power of two up to 1
+            let ue = if d.chance(1, 2) { $bottom } else { d.int($bottom, 0) as i32 };
+            // (d at least as large as its integer components, so that the two products d_i up_j are exact multiples of the unit)
+            let de = d.int(0, 40) as i32;
+            let two = |e: i32| -> F { (2.0 as F).powi(e / 2) * (2.0 as F).powi(e - e / 2) };
+            let dir = Vector2::new(dx as F * two(de), dy as F * two(de));
+            let up = Vector2::new(ux as F * two(ue), uy as F * two(ue));
+            d.note("dir", &dir);
+            d.note("up (integers times 2^e), e", &((ux, uy), ue));
+            let m = Matrix2::look_at(dir, up);
+            let n = ((dx * dx + dy * dy) as f64).sqrt();
+            let b1 = (dx as f64 / n, dy as f64 / n);
+            let tol = 8.0 * F::EPSILON as f64;
+            ensure!((m.x.x as f64 - b1.0).abs() <= tol && (m.x.y as f64 - b1.1).abs() <= tol, "first-column", "first column {:?} vs d/|d| = {:?}", m.x, b1);
+            ensure!(((m.x.x * m.y.x + m.x.y * m.y.y) as f64).abs() <= tol && ((m.y.x as f64).hypot(m.y.y as f64) - 1.0).abs() <= tol, "not-orthonormal", "columns not orthonormal: {:?}", m);
+            let turn = m.x.x as f64 * m.y.y as f64 - m.x.y as f64 * m.y.x as f64;
+            ensure!((turn > 0.0) == (side > 0), "second-column-side", "up = ({}, {}) * 2^{} lies to the {} of d = ({}, {}), but the second column {:?} is the first turned {}", ux, uy, ue, if side > 0 { "left" } else { "right" }, dx, dy, m.y, if turn > 0.0 { "left" } else { "right" });
+            let b: Basis2<F> = Rotation::look_at(dir, up);
+            ensure!(Matrix2::from(b) == m, "basis2-look_at", "Basis2::look_at differs from Matrix2::look_at");
+            pass(if ue == $bottom { if side > 0 { "smallest-subnormal-up-left" } else { "smallest-subnormal-up-right" } } else if side > 0 { "up-left" } else { "up-right" }, true)
+        }
+    };
+}
+tiny_up_2d!(tiny_up_2d_f64, f64, -1074);
+tiny_up_2d!(tiny_up_2d_f32, f32, -149);
+
 pub fn property() -> Property {
     let mut s = Vec::new();
     macro_rules! add {
@@ -287,6 +325,9 @@ pub fn property() -> Property {
     add!("look_3d_steep_axis_up-f64", "f64", steep_axis_up_f64, 4000, 200_000, 48, STEEP, "every generated triple (up on a coordinate axis, dir 1e-12 .. 0.05 rad from +-up)");
     add!("look_3d_steep_axis_up-f32", "f32", steep_axis_up_f32, 4000, 200_000, 48, STEEP, "every generated triple (up on a coordinate axis, dir 1e-12 .. 0.05 rad from +-up)");
     add!("look_2d-Q", "Q", exact_2d, 4000, 200_000, 24, &[("up-left", 100), ("up-right", 100)], "up not parallel to dir; dir not axis-aligned");
+    const TINY: &[(&str, u32)] = &[("smallest-subnormal-up-left", 100), ("smallest-subnormal-up-right", 100), ("up-left", 100), ("up-right", 100)];
+    add!("look_2d_tiny_up-f64", "f64", tiny_up_2d_f64, 4000, 200_000, 24, TINY, "every generated pair (d with small integer components, up a few units of 2^e, e down to the smallest subnormal)");
+    add!("look_2d_tiny_up-f32", "f32", tiny_up_2d_f32, 4000, 200_000, 24, TINY, "every generated pair (d with small integer components, up a few units of 2^e, e down to the smallest subnormal)");
     add!("look_2d-f64", "f64", f64_2d, 4000, 200_000, 24, &[("up-left", 100), ("up-right", 100)], "every generated pair");
     Property {
         id: "C09",
